@@ -22,6 +22,8 @@ func init() {
 			{ID: "C06.R3", Doc: "Merge: result = clone of the receiver; pairs Set into it come from iterating the argument", Run: c06Merge},
 			{ID: "C06.R4", Doc: "Pluck: unconditional result.Set(key, self.Get(key)) for every requested key", Run: c06Pluck},
 			{ID: "C06.R5", Doc: "Keys/Values/Contains range the receiver's spine unfiltered, once per field", Run: c06Views},
+			{ID: "C06.R11", Doc: "scalars are held by value: parseVal maps every Go type to the constructor of its kind through value-preserving conversions (a float stays that float) and the constructors wrap their argument unchanged (= C12.R1)", Run: func(c *Ctx) { c.R.Floor("C06.R11", runAs(c, "C06.R11", c12R1, nil), 10) }},
+			{ID: "C06.R10", Doc: "Count is the number of fields (len of the receiver's spine on every path) and Empty is Count() == 0 of the same container", Run: c06Count},
 			{ID: "C06.R9", Doc: "Merge and Pluck iterate with ForEach, which visits every field exactly once (= C14 on (*object).ForEach)", Run: func(c *Ctx) {
 				c.R.Floor("C06.R9", runAs(c, "C06.R9", c14Run, func(o *Obligation) bool { return strings.Contains(o.Construct, "(*object).ForEach/") }), 2)
 			}},
@@ -1017,4 +1019,51 @@ func c06Views(c *Ctx) {
 		}
 	}
 	c.R.Floor("C06.R5", n, 4)
+}
+
+// c06Count: the size observers of both containers. Count returns len(recv.spine) — read off its SX paths, a defensive guard that
+// returns 0 for the nil or empty spine included; Empty returns `self.Count() == 0` (or the same on the spine's length).
+func c06Count(c *Ctx) {
+	n := 0
+	for _, ct := range c.Inv().Conts {
+		name := "(*" + ct.Named.Obj().Name() + ")"
+		if fd := c.NeedDecl("C06.R10", name+".Count"); fd != nil {
+			n++
+			good := false
+			if t, ok := c.accessorTerm(fd).(TBuiltin); ok && t.Name == "len" && len(t.Args) == 1 {
+				if sp, ok := t.Args[0].(TSel); ok && sp.Field == ct.Spine {
+					if tv, ok := sp.X.(TVar); ok && tv.Obj == c.recvObj(fd) {
+						good = true
+					}
+				}
+			}
+			c.Ob("C06.R10", name+".Count", fd.Pos()).Check(good, "returns len(receiver's spine) on every path", "Count does not return the length of the receiver's spine on every path")
+		}
+		if fd := c.NeedDecl("C06.R10", name+".Empty"); fd != nil {
+			n++
+			v := c.view(fd)
+			paths, why := c.runPaths(fd)
+			paths = mergeBoolReturn(paths)
+			good := why == "" && len(paths) == 1 && paths[0].End == "return" && len(paths[0].Vals) == 1 && len(paths[0].Effects()) == 0 && len(paths[0].Conds()) == 0
+			if good {
+				good = false
+				if b, ok := simplify(paths[0].Vals[0]).(TBin); ok && b.Op == token.EQL {
+					for _, pair := range [][2]Term{{b.X, b.Y}, {b.Y, b.X}} {
+						k, isK := constInt(pair[1])
+						if !isK || k != 0 {
+							continue
+						}
+						if v.isCountOfRecv(pair[0]) {
+							good = true
+						}
+						if bl, ok := pair[0].(TBuiltin); ok && bl.Name == "len" && len(bl.Args) == 1 && v.isRecvSpine(bl.Args[0]) {
+							good = true
+						}
+					}
+				}
+			}
+			c.Ob("C06.R10", name+".Empty", fd.Pos()).Check(good, "returns Count() == 0 of the same container", "Empty is not `Count() == 0` of the receiver")
+		}
+	}
+	c.R.Floor("C06.R10", n, 4)
 }
